@@ -1,6 +1,7 @@
 import IstioModel.C04.Driver
 import IstioModel.C04.Process
 import IstioModel.C04.Recv
+import IstioModel.C04.DeltaProtocol
 
 /-!
 Line-protocol driver for the streams added in review round 2 (`proc`, `dproc`, ...); every other
@@ -26,6 +27,8 @@ structure PState where
   srv       : C03.Srv := {}
   scripts   : List (Ty × Script) := []
   delivered : Delivered := []
+  dsys      : DSys := DSys.init
+  dty       : Ty := .eds
 
 def PState.look (p : PState) (t : Ty) : Script :=
   match p.scripts.find? (fun q => q.1 == t) with
@@ -158,17 +161,47 @@ def stepRecv (toks : List String) : String :=
       s!"fwd={fwd} err={o.err.tok} init={boolTok o.init} proc={pr}"
   | _ => "bad-op"
 
+/-! ### stream dloop -/
+
+def showDMsg (m : DMsg) : String :=
+  let e := match m.err with
+    | none => "-"
+    | some msg => "e:" ++ enc msg
+  s!"{enc m.nonce}/+{encSet m.sub}/-{encSet m.unsub}/{e}"
+
+def showDSys (y : DSys) : String :=
+  let c := if y.c2s.isEmpty then "-" else ";".intercalate (y.c2s.map showDMsg)
+  s!"{showState y.srv} | c2s={c} s2c={encList y.s2c} want={encSet y.cwant} pend=+{encSet y.pendSub}/-{encSet y.pendUnsub}"
+
+def stepDloop (p : PState) (toks : List String) : PState × String :=
+  let go (e : DStep) : PState × String :=
+    let y := dstep p.dty p.dsys e
+    let y := { y with srv := normalize y.srv }
+    ({ p with dsys := y }, showDSys y)
+  match toks with
+  | ["cwant", add, remove] => go (.clientWant (decList add) (decList remove))
+  | ["cflush"] => go .clientFlush
+  | ["crecv", nack] => go (.clientRecv (decNack nack))
+  | ["srecv", n] => go (.serverRecv (dec n))
+  | ["spush", n, ok] => go (.serverPush (dec n) (tokBool ok))
+  | _ => (p, "bad-op")
+
 def stepP (p : PState) (toks : List String) : PState × String :=
   match toks with
   | ["case", _, "proc"] => ({ base := p.base, stream := "proc" }, "ok")
   | ["case", _, "dproc"] => ({ base := p.base, stream := "dproc" }, "ok")
   | ["case", _, "recv"] => ({ base := p.base, stream := "recv" }, "ok")
+  | ["case", _, "dloop", ty] =>
+    match Ty.ofTok ty with
+    | none => (p, "bad-op")
+    | some t => ({ base := p.base, stream := "dloop", dty := t }, "ok")
   | "case" :: _ =>
     let (b, o) := stepD p.base toks
     ({ base := b, stream := "" }, o)
   | _ =>
     if p.stream == "proc" || p.stream == "dproc" then stepProc p toks
     else if p.stream == "recv" then (p, stepRecv toks)
+    else if p.stream == "dloop" then stepDloop p toks
     else
       let (b, o) := stepD p.base toks
       ({ p with base := b }, o)
